@@ -941,6 +941,10 @@ def aimed_shapes() -> list[tuple[str, list[list[tuple]]]]:
         ("call-only-target-in-earlier-routine", [[pl, jp(0, 0), pl, R], [cl(2, 0), R]]),
         # a call as the LAST statement of an else / if / elseif block that has another block laid out behind it (a call does not
         # end the flow: the jump over the following block must be there when the text is compiled again)
+        # the same switch with a non-contiguous case group (cases 1 and 3 share a body) in several routines: the re-entry labels the
+        # decompiler writes for the shared body must not collide between routines
+        ("switch-noncontiguous-case-group-in-3-routines", [[sw, ca(5, r), ca(7, r), ca(5, r), jp(9, r), pl, jp(9, r), pl, jp(9, r), R] for r in (0, 1, 2)]),
+        ("switch-noncontiguous-case-group-in-2-routines", [[pl, R]] + [[sw, ca(4, r), ca(6, r), ca(4, r), pl, jp(7, r), pl, R] for r in (1, 2)]),
         ("else-block-is-one-call-into-if-block", [[pl, br(4), cl(5), jp(7), pl, pl, R, pl, E]]),
         ("else-block-is-one-call", [[br(3), cl(6), jp(4), pl, pl, R, pl, R]]),
         ("else-block-ends-in-call", [[br(4), pl, cl(7), jp(5), pl, pl, R, pl, R]]),
